@@ -786,7 +786,66 @@ def kw_check(kind, case, rec):
     rec.require("without-kwargs-the-default-applies", float(np.abs(r0 - r_kw).max()) > 1e-3 * float(np.abs(r_kw).max()))
 
 
-FAMILIES = [Family("material-kwargs", ["solid/3d"], kw_check, strategy=kw_strategy, n={"quick": 6, "thorough": 100}, chunk=6),
+# ---------------------------------------------------------------------------------------------------------------
+# the item-free helpers tools.fun / tools.jac (what newtonrhapson assembles from a bare umat): same extraction flags on both sides
+# ---------------------------------------------------------------------------------------------------------------
+def fj_strategy(kind, tier):
+    return st.fixed_dictionaries({"n": st.lists(st.integers(2, 3), min_size=3, max_size=3), "seed": st.integers(0, 2**16), "mu": st.floats(0.5, 2.0).map(lambda v: round(v, 2)),
+                                  "c": st.floats(0.5, 5.0).map(lambda v: round(v, 2)), "parallel": st.booleans()})
+
+
+def fj_check(kind, case, rec):
+    """a non-linear law written in the displacement gradient it is handed (stress 2 mu H + 4 c (H:H) H, meant for the symmetrised
+    gradient): jac(...) is the derivative of fun(...) for the flags sym=True / sym=False alike"""
+    fem = import_felupe()
+    mu, c_ = case["mu"], case["c"]
+
+    class InH:
+        x = [np.eye(3), np.zeros(0)]
+
+        def gradient(self, x):
+            H = x[0]
+            hh = np.einsum("ij...,ij...->...", H, H)
+            return [2 * mu * H + 4 * c_ * hh * H, x[-1]]
+
+        def hessian(self, x):
+            H = x[0]
+            hh = np.einsum("ij...,ij...->...", H, H)
+            I4 = np.einsum("ik,jl->ijkl", np.eye(3), np.eye(3))
+            if sym:
+                # a law for the symmetrised gradient has a minor-symmetric tangent (it only ever sees symmetric perturbations)
+                I4 = 0.5 * (I4 + np.einsum("il,jk->ijkl", np.eye(3), np.eye(3)))
+            return [(2 * mu + 4 * c_ * hh) * I4.reshape(3, 3, 3, 3, 1, 1) + 8 * c_ * np.einsum("ij...,kl...->ijkl...", H, H)]
+
+    mesh = fem.Cube(n=tuple(case["n"]))
+    region = fem.RegionHexahedron(mesh)
+    rng = np.random.default_rng(case["seed"])
+    u0 = 0.15 * rng.uniform(-1, 1, mesh.points.shape)
+    fc = fem.FieldContainer([fem.Field(region, dim=3, values=u0.copy())])
+    sym = kind == "sym=True"
+    um = InH()
+    kw = dict(umat=um, parallel=case["parallel"], grad=True, add_identity=False, sym=sym)
+    from felupe.tools._newton import fun as fun_umat, jac as jac_umat  # (felupe.tools.fun / jac are the item versions)
+
+    Ks = jac_umat(fc, **kw)
+    K = np.asarray(Ks.toarray() if hasattr(Ks, "toarray") else Ks, float).copy()
+    h = 1e-6
+    fd = np.zeros_like(K)
+    for j in range(u0.size):
+        e = np.zeros(u0.size)
+        e[j] = h
+        fc[0].values[...] = (u0.ravel() + e).reshape(u0.shape)
+        rp = np.asarray(fun_umat(fc, **kw)).ravel().copy()
+        fc[0].values[...] = (u0.ravel() - e).reshape(u0.shape)
+        rm = np.asarray(fun_umat(fc, **kw)).ravel().copy()
+        fd[:, j] = (rp - rm) / (2 * h)
+    fc[0].values[...] = u0
+    rec.nontrivial = True
+    rec.close("tools.jac=d(tools.fun)/du", float(np.abs(K - fd).max()) / float(np.abs(K).max()), 2e-6, {"sym": sym})
+
+
+FAMILIES = [Family("tools-fun-jac", ["sym=True", "sym=False"], fj_check, strategy=fj_strategy, n={"quick": 3, "thorough": 40}, chunk=3),
+            Family("material-kwargs", ["solid/3d"], kw_check, strategy=kw_strategy, n={"quick": 6, "thorough": 100}, chunk=6),
             Family("tangent", ITEMS, check, strategy=strategy, n={"quick": 8, "thorough": 96}, chunk=4, weight=3),
             Family("lifecycle", LIFE, life_check, strategy=life_strategy, n={"quick": 12, "thorough": 300}, chunk=12)]
 
